@@ -64,6 +64,8 @@ FIXED = [
      "`def 0 { message_Menu<actor 1>(1, 2); hold; }` (also ProcessSpecial, message_SwitchMenu, main_EnterAdventure; inline context or with-block) decompiled to the SsbScript fallback (792 of 10.4k flat programs once such opcode names were used in plain statements; pointed out by a sub-agent as an observation on the unchanged tree)"),
     ("C16", "fix: ValueError for position mark coordinates written without a digit in front of the point",
      "`def 0 { a(Position<'m', -.5, 1>); }` raised ValueError (invalid literal for int(): '-') while the spellings `-0.5` and `-00.5` of the same decimal compile (one of the 8 hand-written spelling groups; pointed out by a sub-agent as an observation on the unchanged tree)"),
+    ("C02", "fix: conditions and bit assignments were written in a form that compiles to another op or parameter",
+     "[pre, BranchDebug 2 -> End, a, End] decompiled to `if not ( debug )` (recompiles with parameter 1); [BranchPerformance 3 -1 ..] likewise; [flag_CalcBit $PERFORMANCE_PROGRESS_LIST 3 1] decompiled to `$PERFORMANCE_PROGRESS_LIST[3] = 1;` (recompiles to flag_SetPerformance), BranchBit on that list to the spelling of BranchPerformance (16 of the 35 sets of family V; pointed out by a sub-agent as an observation on the unchanged tree)"),
     ("C02", "fix: dungeon mode values other than 0..3 were printed as the 'closed' constant",
      "`switch (dungeon_mode(D)) { case DMODE_OPEN: .. }` (or any constant / other number as case value or flag_SetDungeonMode value) decompiled to `case DMODE_CLOSE:` (476 of 55k inputs under seed rotation 2)"),
     ("C09", "fix: inserted break_loop/continue statements overwrote the source map entry of the op before them",
